@@ -7,7 +7,7 @@ import vlib
 
 MOD = "server/AcceptDispatch.tla"
 TMOD = "server/AcceptDispatchTrace.tla"
-VARIANTS = ["IgnoreUnknownIdx", "UnlinkOnDeregister", "IncBeforeSend", "NoClearOnLimit", "ResumeSkipsAcceptAll",
+VARIANTS = ["IgnoreUnknownIdx", "UnlinkOnDeregister", "ResumeClearsBackoff", "IncBeforeSend", "NoClearOnLimit", "ResumeSkipsAcceptAll",
             "BackoffNeverReregisters", "RoundRobinStuck", "ConnErrIsFatal", "WakeSkipsAcceptAll", "PauseKeepsRegistered"]
 
 
@@ -137,7 +137,7 @@ def trace_cfg(path, consts, invariants):
              "  Uds = {%s}" % ",".join(str(x) for x in consts["Uds"]),
              "  MaxConns = 1000", "  MaxFaults = 1000", "  MaxCmds = 1000", "  MaxErrs = 1000", "  MaxBare = 1000",
              "  WakeAt = %d" % (consts["Limit"] + 1)]
-    lines += ["  %s = %s" % (v, "TRUE" if v == "IgnoreUnknownIdx" else "FALSE") for v in VARIANTS]
+    lines += ["  %s = %s" % (v, "TRUE" if v in ("IgnoreUnknownIdx", "ResumeClearsBackoff") else "FALSE") for v in VARIANTS]
     lines += ["SPECIFICATION TSpec", "INVARIANTS " + " ".join(invariants), "POSTCONDITION TraceAccepted",
               "CHECK_DEADLOCK FALSE"]
     with open(path, "w") as f:
@@ -181,3 +181,112 @@ def replay_and_validate(ctx, scheds, invariants, tag, sig_fn=None):
             rec = runs[i][min(pos, len(runs[i]) - 1)]
             bad.append((i, rec, pred))
     return accepted_total, bad, runs
+
+
+def cex_schedule(ctx, cfg, consts=None):
+    """Runs a NEG config, exports TLC's counterexample (-dumpTrace json) and translates it into a driver
+    schedule: the design-level counterexample of a wrong variant becomes a regression schedule for the code."""
+    out = os.path.join(ctx.workdir, "cex-%s.json" % cfg[:-4])
+    if os.path.exists(out):
+        os.remove(out)
+    res = vlib.run_tlc(MOD, cfg, workers=4, timeout=600, extra=["-dumpTrace", "json", out],
+                       tag="%s-cex-%s" % (ctx.prop, cfg[:-4]))
+    if not os.path.exists(out):
+        return None, res
+    ce = json.load(open(out))["counterexample"]["state"]
+    acts = [s[1]["act"] for s in ce[1:]]
+    consts = consts or read_cfg_constants(cfg)
+    return {"cfg": sim_cfg(consts), "steps": path_to_steps(acts), "origin": "counterexample of " + cfg,
+            "model_path": [{k: v for k, v in a.items() if v not in (0, "")} for a in acts]}, res
+
+
+def load_corpus(names):
+    out = []
+    for n in names:
+        p = os.path.join(vlib.ROOT, "corpus", n)
+        for rec in vlib.read_ndjson(p):
+            rec["origin"] = "corpus/" + n
+            out.append(rec)
+    return out
+
+
+PROP_OF_PRED = lambda pred: pred.split("_")[1] if pred and pred.startswith("T_") else None
+
+
+def run_check(ctx, *, design, edge_cfgs, negs, invariants, corpus, max_paths_quick=400, max_paths_thorough=6000,
+              thorough_design=(), live=(), neg_live=(), nontrivial=None, signature=None, rule=""):
+    """design: configs checked exhaustively by TLC (must hold); edge_cfgs: subset whose state graph is turned into
+    schedules; negs: {cfg: [expected predicates]} (each also yields a counterexample schedule); invariants: the
+    T_* predicates of AcceptDispatchTrace that decide this property; corpus: corpus files to replay."""
+    vlib.cargo_build(["vsrv"])
+    scheds = []
+    cfgs = list(design) + ([] if ctx.quick else list(thorough_design))
+    total_edges = covered_edges = 0
+    for cfg in cfgs:
+        edges = cfg in edge_cfgs
+        keep = os.path.join(ctx.workdir, cfg[:-4] + ".out") if edges else None
+        res = ctx.model_check(MOD, cfg, workers=1 if edges else 8, keep=keep, timeout=3000, xmx="10g")
+        vlib.require_ok(res, cfg)
+        ctx.add_tlc(cfg, res, "exhaustive, design variants" + (", edge dump" if edges else ""))
+        if edges:
+            g = graph_with_q(res.stdout)
+            consts = read_cfg_constants(cfg)
+            s, cov, tot = schedules_from_graph(ctx, g, consts, max_paths_quick if ctx.quick else max_paths_thorough)
+            for x in s:
+                x["origin"] = "edge cover of " + cfg
+            scheds += s
+            total_edges += tot
+            covered_edges += cov
+    for cfg in live:
+        res = ctx.model_check(MOD, cfg, workers=4, timeout=1200)
+        vlib.require_ok(res, cfg)
+        ctx.add_tlc(cfg, res, "liveness under weak fairness (no state constraint)")
+    for cfg, exp in list(negs.items()) + list(neg_live):
+        s, res = cex_schedule(ctx, cfg)
+        expected = exp if isinstance(exp, (list, tuple)) else [exp]
+        if res.violated not in expected:
+            raise vlib.ToolError("NEG config %s: expected %s violated, TLC reported %s" % (cfg, expected, res.violated))
+        vlib.log("NEG %s: rejected as expected (%s)" % (cfg, res.violated))
+        ctx.cov["neg_configs_rejected"].append({"cfg": cfg, "violated": res.violated})
+        if s:
+            scheds.append(s)
+    scheds += load_corpus(corpus)
+    accepted, bad, runs = replay_and_validate(ctx, scheds, invariants, ctx.prop.lower())
+    ctx.cov["traces_validated_against_impl"] += accepted
+    for (i, rec, pred) in bad:
+        sig = (signature(rec, pred, scheds[i]) if signature else "%s:%s" % (pred, rec.get("do")))
+        ctx.violation(sig, "predicate %s is false on the state observed after step %s (%s) of a schedule from %s" % (
+            pred, rec.get("k"), rec.get("do"), scheds[i].get("origin")),
+            {"schedule": {"cfg": scheds[i]["cfg"], "steps": scheds[i]["steps"]}, "predicate": pred,
+             "record": rec, "invariants": invariants})
+    nt = sum(1 for k, s in enumerate(scheds) if (nontrivial(s, runs[k]) if nontrivial else True))
+    ctx.cov["evaluations"] += len(scheds)
+    ctx.cov["distinct_nontrivial"] += nt
+    ctx.cov["rule"] = rule
+    ctx.cov["model_edges"] = total_edges
+    ctx.cov["model_edges_replayed_on_impl"] = covered_edges
+    ctx.cov["exhaustive"] = True
+    ctx.cov["schedule_origins"] = {}
+    for s in scheds:
+        o = s.get("origin", "?")
+        ctx.cov["schedule_origins"][o] = ctx.cov["schedule_origins"].get(o, 0) + 1
+    if scheds:
+        k = 0
+        ctx.cov["samples"].append({"schedule": scheds[k]["steps"][:30], "cfg": scheds[k]["cfg"],
+                                   "observed_last_record": runs[k][-1]})
+    ctx.assumptions += [
+        "stepped driver serializes threads: interleavings are explored at the yield points (after accept(2), after send, "
+        "after the counter increment) and at action boundaries; atomics are treated as sequentially consistent",
+        "observations are measured (channel lengths, raw counters, availability bits, socket EOF, service-side call log)",
+    ]
+    return scheds, runs
+
+
+def replay(ctx, path, invariants):
+    vlib.cargo_build(["vsrv"])
+    rp = json.load(open(path))["replay"]
+    accepted, bad, runs = replay_and_validate(ctx, [rp["schedule"]], rp.get("invariants") or invariants, "replay")
+    ctx.cov.update({"evaluations": 1, "distinct_nontrivial": 1, "states": 1, "transitions": 1,
+                    "traces_validated_against_impl": accepted, "samples": [runs[0][-1]]})
+    for (i, rec, pred) in bad:
+        ctx.violation("%s:%s" % (pred, rec.get("do")), "replay: predicate %s false after step %s" % (pred, rec.get("k")), rp)
